@@ -27,6 +27,12 @@ func init() {
 		Run: runC01,
 	})
 	addMutants("C01",
+		mutant{"cancel completes the write handler twice", "file.go",
+			"\t\tf.slot.Handlers[internal.WriteEvent](err)\n\t}\n}\n\nfunc (f *file) RawFd", "\t\tf.slot.Handlers[internal.WriteEvent](err)\n\t\tf.slot.Handlers[internal.WriteEvent](err)\n\t}\n}\n\nfunc (f *file) RawFd", "C01-R4"},
+		mutant{"adapter write reactor without back-pointer", "async_adapter.go",
+			"\t\ta.writeReactor = asyncAdapterWriteReactor{adapter: a}", "\t\ta.writeReactor = asyncAdapterWriteReactor{}", "C01-R2b"},
+		mutant{"file write reactor bound to nothing", "file.go",
+			"\tf.writeReactor = fileWriteReactor{file: f}", "\tf.writeReactor = fileWriteReactor{}", "C01-R2b"},
 		mutant{"missing return after inline completion (file read)", "file.go",
 			"\t\tcb(nil, readSoFar)\n\t\treturn\n\t}\n\n\t// handles (readAll == false)", "\t\tcb(nil, readSoFar)\n\t}\n\n\t// handles (readAll == false)", "C01-R1"},
 		mutant{"callback dropped when registration fails (adapter write)", "async_adapter.go",
@@ -648,6 +654,155 @@ func runC01(c *Ctx) {
 			c.check(good, fn, "cancel "+dname+" error", in.Pos(), "the continuation receives a non-nil error", "the continuation may be called with a nil error: the handler would retry the operation instead of completing it with a cancellation error")
 		})
 	}
+	// R4p: per path (and, for a helper shared by both directions, per call site): a path that completes a parked operation
+	// through Handlers[k] tests the interest bit of direction k, removes that interest first, and completes it exactly once
+	for _, fn := range p.Funcs {
+		if pk := fnTypesPkg(fn); pk != nil && pk.Path() == modPath+"/internal" {
+			continue
+		}
+		type hcall struct {
+			in  ssa.Instruction
+			k   int64     // constant direction, or
+			idx ssa.Value // the value selecting it
+		}
+		var hcalls []hcall
+		eachInstr(fn, func(in ssa.Instruction) {
+			call, ok := in.(ssa.CallInstruction)
+			if !ok || !isDynamicFuncCall(call) {
+				return
+			}
+			if k, _, ok := handlerIndexOf(call.Common().Value, handlersF); ok {
+				hcalls = append(hcalls, hcall{in, k, nil})
+			} else if iv := handlerIndexValue(call.Common().Value, handlersF); iv != nil {
+				hcalls = append(hcalls, hcall{in, -1, iv})
+			}
+		})
+		if len(hcalls) == 0 {
+			continue
+		}
+		// contexts: constants bound to the parameters at each call site (one empty context when no index is a parameter)
+		contexts := []map[ssa.Value]int64{{}}
+		needCtx := false
+		for _, h := range hcalls {
+			if h.idx != nil {
+				needCtx = true
+			}
+		}
+		if needCtx {
+			contexts = nil
+			top := fn
+			for top.Parent() != nil {
+				top = top.Parent()
+			}
+			if top != fn {
+				continue
+			}
+			for _, site := range p.callers(fn) {
+				ctx := map[ssa.Value]int64{}
+				for i, prm := range fn.Params {
+					if i < len(site.Common().Args) {
+						if k, ok := constInt(site.Common().Args[i]); ok {
+							ctx[prm] = k
+						}
+					}
+				}
+				contexts = append(contexts, ctx)
+			}
+			if len(contexts) == 0 {
+				c.bad(fn, "cancel paths", fn.Pos(), "the direction of the handler invoked by %s is not a constant and the function has no call site to take it from", fnName(fn))
+				continue
+			}
+		}
+		paths, overflow := enumPaths(fn)
+		if overflow {
+			c.unproven(fn, "cancel paths", fn.Pos(), "too many paths")
+			continue
+		}
+		valOf := func(ctx map[ssa.Value]int64, v ssa.Value) (int64, bool) {
+			if k, ok := constInt(v); ok {
+				return k, true
+			}
+			k, ok := ctx[stripConv(v)]
+			return k, ok
+		}
+		bad := ""
+		var badPos token.Pos
+		for _, ctx := range contexts {
+			for _, path := range paths {
+				if path.Panics {
+					continue
+				}
+				feasible := true
+				for _, l := range path.Lits {
+					if op, x, y, ok := l.cmp(); ok {
+						a, okA := valOf(ctx, x)
+						b, okB := valOf(ctx, y)
+						if okA && okB && ((op == token.EQL && a != b) || (op == token.NEQ && a == b)) {
+							feasible = false
+						}
+					}
+				}
+				if !feasible {
+					continue
+				}
+				count := map[int64]int{}
+				removed := map[int64]bool{}
+				for _, in := range path.Instrs() {
+					switch {
+					case isCallTo(in, delRead...):
+						removed[e.readEv] = true
+					case isCallTo(in, delWrite...):
+						removed[e.writeEv] = true
+					case isCallTo(in, delBoth...):
+						removed[e.readEv], removed[e.writeEv] = true, true
+					}
+					for _, h := range hcalls {
+						if h.in != in {
+							continue
+						}
+						k := h.k
+						if h.idx != nil {
+							kk, ok := valOf(ctx, h.idx)
+							if !ok {
+								bad, badPos = "the direction of the handler invoked is not determined at a call site", in.Pos()
+								continue
+							}
+							k = kk
+						}
+						count[k]++
+						flag := readFlag
+						if k == e.writeEv {
+							flag = writeFlag
+						}
+						tested := false
+						for _, l := range path.Lits {
+							if x, set, ok := bitTest(l.Lit, eventsF); ok && set {
+								if m, ok := valOf(ctx, x); ok && m == flag {
+									tested = true
+								}
+							}
+						}
+						if !tested {
+							bad, badPos = "a handler is completed on a path that did not test the interest bit of its own direction", in.Pos()
+						}
+						if !removed[k] {
+							bad, badPos = "a handler is completed on a path that did not remove the interest of its own direction first", in.Pos()
+						}
+					}
+				}
+				for _, n := range count {
+					if n > 1 {
+						bad, badPos = "a path completes the same parked operation more than once", fn.Pos()
+					}
+				}
+			}
+		}
+		if bad != "" {
+			c.bad(fn, "cancel paths", badPos, "%s: the callback of one operation runs twice, or a stale / nil handler of the other direction is called", bad)
+		} else {
+			c.ok(fn, "cancel paths", fn.Pos(), "%d handler completions: own interest bit tested, own interest removed first, at most once per path (%d contexts)", len(hcalls), len(contexts))
+		}
+	}
 	// R4b: outside Close (and the timer), removing an interest without completing the parked operation drops it silently
 	for _, fn := range p.Funcs {
 		pk, tn := recvTypeName(fn)
@@ -893,6 +1048,48 @@ func checkArming(c *Ctx, e *e2, handler *ssa.Function, field *types.Var) {
 				// the back-pointer to the owning object is set once by the constructor
 				if pt, isPtr := g.Type().(*types.Pointer); isPtr {
 					if nt, isNamed := pt.Elem().(*types.Named); isNamed && nt.Obj().Pkg() != nil && c14Owners[nt.Obj().Pkg().Path()+"."+nt.Obj().Name()] {
+						// ... by every constructor: a function that allocates the owner stores it into this field (directly, or
+						// through the composite literal of the reactor), so the handler never follows a nil back-pointer
+						nCtor := 0
+						for _, fn := range p.Funcs {
+							var owner *ssa.Alloc
+							eachInstr(fn, func(in ssa.Instruction) {
+								if a, ok := in.(*ssa.Alloc); ok && a.Heap {
+									if apt, ok := a.Type().(*types.Pointer); ok && types.Identical(apt.Elem(), nt) {
+										owner = a
+									}
+								}
+							})
+							if owner == nil {
+								continue
+							}
+							nCtor++
+							wired := false
+							top := fn
+							for top.Parent() != nil {
+								top = top.Parent()
+							}
+							for _, scope := range withClosures(top) {
+								for _, d := range deepStoresTo(scope, g) {
+									v := resolveCell(d.translate(d.Store.Val))
+									if v == ssa.Value(owner) || (scope != fn && dependsOnLoose(v, owner)) {
+										wired = true
+									}
+									if cell := cellOf(strip(d.translate(d.Store.Val))); cell == owner {
+										wired = true
+									}
+									if u, ok := strip(d.translate(d.Store.Val)).(*ssa.UnOp); ok && u.Op == token.MUL {
+										if resolveCell(u) == ssa.Value(owner) {
+											wired = true
+										}
+									}
+								}
+							}
+							c.check(wired, fn, "wires "+objName(g), owner.Pos(), "the constructor stores the new object into the reactor's back-pointer", fnName(fn)+" allocates a "+nt.Obj().Name()+" but does not store it into "+objName(g)+": the first operation that has to be parked runs its handler on a nil back-pointer")
+						}
+						if nCtor == 0 {
+							c.bad(handler, "wires "+objName(g), handler.Pos(), "no function allocates %s (anchor moved)", nt.Obj().Name())
+						}
 						continue
 					}
 				}
